@@ -138,6 +138,19 @@ class PyVec(list):
     pass
 
 
+class Opaque:
+    """placeholder for a value of an unmodelled type; any use of it aborts the analysis"""
+
+    def __init__(self, type_str):
+        self.type_str = type_str
+
+    def __repr__(self):
+        return "<opaque %s>" % self.type_str[:40]
+
+    def __deepcopy__(self, memo):
+        return self
+
+
 class Closure:
     def __init__(self, fn, caps, this):
         self.fn = fn
@@ -379,6 +392,8 @@ class Interp:
             return {}
         if base.startswith("std::basic_string<"):
             return ""
+        if base.startswith("std::shared_ptr<") or base.startswith("std::unique_ptr<") or base.endswith("*"):
+            return None
         rec = None
         for r in fn.unit.records:
             if fn.unit.type(r["t"]) == base:
@@ -389,7 +404,7 @@ class Interp:
         # enums
         if "::" in base and not base.startswith("std::") and not base.startswith("xt::"):
             return 0
-        raise AnalysisBroken("interp: no default value for type %s" % base)
+        return Opaque(base)
 
     def new_obj(self, fn, rec):
         o = Obj(rec["bn"], {}, fn.unit.type(rec["t"]))
@@ -403,10 +418,7 @@ class Interp:
                 fr = Frame(fn, o)
                 o.fields[f["n"]] = copy.deepcopy(self.rv(self.eval(f["init"], fr)))
             else:
-                try:
-                    o.fields[f["n"]] = self.default_for_type(fn, f["t"])
-                except AnalysisBroken:
-                    pass  # unmodelled member: reading it later is an error
+                o.fields[f["n"]] = self.default_for_type(fn, f["t"])
         return o
 
     # ---------------------------------------------------------------- calls
@@ -574,7 +586,19 @@ class Interp:
         raise AnalysisBroken("interp: subscript of %r" % (b,))
 
     def e_initlist(self, e, fr):
-        return PyVec([copy.deepcopy(self.rv(self.eval(a, fr))) for a in e.get("a", []) if a])
+        vals = [copy.deepcopy(self.rv(self.eval(a, fr))) for a in e.get("a", []) if a]
+        rec = fr.fn.unit.rec_by_type.get(e.get("t"))
+        if rec is not None:
+            # aggregate initialisation of a library record
+            o = self.new_obj(fr.fn, rec)
+            names = [f["n"] for f in rec["fields"]]
+            for n, v in zip(names, vals):
+                o.fields[n] = v
+            return o
+        ts = fr.fn.type(e.get("t")).replace("const ", "")
+        if ts.startswith("std::pair<") and len(vals) == 2:
+            return (vals[0], vals[1])
+        return PyVec(vals)
 
     def e_lambda(self, e, fr):
         fn = fr.fn.unit.fns.get(e.get("fid"))
@@ -750,7 +774,7 @@ class Interp:
 
     def e_construct(self, e, fr):
         args = e.get("a", [])
-        if (e.get("copy") or e.get("move")) and len(args) == 1:
+        if (e.get("copy") or e.get("move")) and len(args) == 1 and e.get("fid") is None:
             return copy.deepcopy(self.rv(self.eval(args[0], fr)))
         ts = fr.fn.type(e["t"])
         w = self.world.external(self, fr.fn, e, fr)
@@ -771,8 +795,8 @@ class Interp:
             if not args:
                 return self.default_for_type(fr.fn, base)
             vals = [self.rv(self.eval(a, fr)) for a in args]
-            if len(vals) == 1 and isinstance(vals[0], PyVec):
-                return copy.deepcopy(vals[0])
+            if isinstance(vals[0], PyVec) and all(isinstance(v, Opaque) for v in vals[1:]):
+                return copy.deepcopy(vals[0])   # (initializer_list[, allocator])
             if base.startswith("std::vector<") and len(vals) >= 1 and isinstance(vals[0], int):
                 fill = vals[1] if len(vals) > 1 and not isinstance(vals[1], Obj) else None
                 inner = base[len("std::vector<"):].rsplit(", std::allocator", 1)[0]
@@ -781,6 +805,17 @@ class Interp:
                 return PyVec([copy.deepcopy(fill) for _ in range(vals[0])])
         if base.startswith("std::pair<") and len(args) == 2:
             return (self.rv(self.eval(args[0], fr)), self.rv(self.eval(args[1], fr)))
+        if (base.startswith("std::map<") or base.startswith("std::unordered_map<")) and args:
+            first = self.rv(self.eval(args[0], fr))
+            if isinstance(first, (list, PyVec)):
+                d = {}
+                for kv in first:
+                    if not (isinstance(kv, (tuple, list)) and len(kv) == 2):
+                        raise AnalysisBroken("interp: map initialiser element %r" % (kv,))
+                    d.setdefault(kv[0], kv[1])
+                return d
+            if isinstance(first, dict):
+                return copy.deepcopy(first)
         if not args:
             return self.default_for_type(fr.fn, base)
         if base.startswith("std::basic_string<"):
@@ -880,6 +915,9 @@ class Interp:
             return (copy.deepcopy(V(0)), copy.deepcopy(V(1)))
         if bn == "std::get":
             v = V(0)
+            ta = e.get("targs") or []
+            if isinstance(v, (tuple, list)) and ta and isinstance(ta[0], int) and ta[0] < len(v):
+                return v[ta[0]]
             raise AnalysisBroken("interp: std::get on %r" % (v,))
         if bn == "std::function::operator()":
             f = self.rv(self.eval(e["obj"], fr))
@@ -1060,6 +1098,8 @@ class Interp:
                     fr.vars[var["d"]] = Cell(copy.deepcopy(self.rv(item)), var["n"])
                 for b in var.get("bindings", []) or []:
                     fr.vars.pop(b["d"], None)
+                    if b.get("hv") is not None:
+                        self.declare(b["hv"], fr)
                 try:
                     self.exec(s.get("body"), fr)
                 except BreakEx:
@@ -1124,6 +1164,8 @@ class Interp:
             fr.vars[v["d"]] = Cell(self.default_for_type(fr.fn, v["t"]), v["n"])
         for b in v.get("bindings", []) or []:
             fr.vars.pop(b["d"], None)
+            if b.get("hv") is not None:
+                self.declare(b["hv"], fr)
 
 
 def explore(run, max_paths=20000):
